@@ -36,8 +36,8 @@ func normSig(sig string) string {
 }
 
 type c02Variant struct {
-	base       int // index of the base function
-	mask       int // erased parameters
+	base       int  // index of the base function
+	mask       int  // erased parameters
 	annotRet   bool // the result type is annotated (`let f a b : T = ...`)
 	src        string
 	name       string
